@@ -17,6 +17,7 @@ package agreement
 
 import (
 	"bytes"
+	"context"
 	"encoding/json"
 	"fmt"
 	"go/ast"
@@ -33,6 +34,7 @@ import (
 	"strconv"
 	"strings"
 	"testing"
+	"time"
 
 	"github.com/algorand/msgp/msgp"
 
@@ -2184,11 +2186,20 @@ func vRunChildren(t *testing.T, pend []vPending) []string {
 	}
 	os.Remove(outPath)
 	var res []string
+	spawned := 0
 	for len(res) < len(pend) {
-		cmd := exec.Command(os.Args[0], "-test.run", "^TestVerifC41Child$", "-test.count", "1")
+		// hard limits: 16 GiB address space (ulimit -v in the launching shell AND setrlimit in the child),
+		// 120 s wall clock per child (killed on expiry: counted as a dead child for the current input)
+		ctx, cancel := context.WithTimeout(context.Background(), 120*time.Second)
+		cmd := exec.CommandContext(ctx, "/bin/sh", "-c", `ulimit -v 16777216; exec "$0" "$@"`,
+			os.Args[0], "-test.run", "^TestVerifC41Child$", "-test.count", "1", "-test.timeout", "110s")
 		cmd.Env = append(os.Environ(), "VERIF_C41_CHILD_IN="+inPath, "VERIF_C41_CHILD_OUT="+outPath,
 			"VERIF_C41_CHILD_FROM="+strconv.Itoa(len(res)))
 		msg, runErr := cmd.CombinedOutput()
+		cancel()
+		if spawned++; spawned > len(pend)+8 {
+			t.Fatalf("too many child processes")
+		}
 		raw, _ := os.ReadFile(outPath)
 		lines := strings.Split(strings.TrimSpace(string(raw)), "\n")
 		if len(raw) == 0 {
